@@ -59,6 +59,15 @@ def r1(chk):
             seen[kf] = seen.get(kf, 0) + 1
             flags[kf] = m.group(3)
     if not seen:
+        vs = [c for c in common if c.startswith("validate_struct_attrs(")]
+        # recognised-bad: the per-counterpart rules run over instructions filtered by kind only (or not at all): `into_existing(T)` and
+        # `try_into_existing(T, E)` are independent conversions (C04) but would now count as duplicates of one another
+        kind_only = [c for c in vs if re.search(r"applicable_to\[", c) and "fallible" not in c.split(",")[0]] or [c for c in vs if re.match(r"validate_struct_attrs\([\w.()]*\.attrs\.iter\(\)[,)]", c)]
+        if kind_only:
+            chk.bad("R1", "validate_struct_attrs/partition", VALIDATE, fi.line,
+                    "trait-instruction rules (one instruction per counterpart, error type present/absent) are applied to infallible and fallible instructions of a kind together, although they are independent conversions",
+                    expected="validate_struct_attrs(<instructions of (kind, fallible)>) for each of the 12 conversions", found=[c[:110] for c in kind_only[:2]])
+            return
         raise Inconclusive("no validate_struct_attrs(<attrs>.iter_for_kind_core(K, f), ..) dispatch recognised in validate's evaluation: " + str(common[:3])[:160])
     for (k, f), flag in flags.items():
         chk.expect("R1", f"validate_struct_attrs[{k},{f}]/flag", flag == ("true" if f else "false"), VALIDATE, fi.line, "fallible flag passed differs from the instructions filtered", expected=f, found=flag)
